@@ -252,6 +252,83 @@ def judge(module, trace, name, parallel=None, extra_env=None, parts=None):
 
 
 # ---------------------------------------------------------------------------------------------
+# event-level conformance: recorded runs validated against the implementation-shaped model by TLC
+
+CONF_CMP = ("out", "h_start", "h_end", "ctl", "ctl_done", "conn_done")
+
+
+def events_by_cmd(tp):
+    """trace file -> {run: {cmd index: [event, ...]}}"""
+    runs = {}
+    cur = None
+    ci = -1
+    with open(tp) as f:
+        for line in f:
+            e = json.loads(line)
+            if e["e"] == "reset":
+                cur = runs.setdefault(e["n"], {})
+                ci = -1
+            elif e["e"] == "cmd":
+                ci = e["n"]
+            elif cur is not None:
+                cur.setdefault(ci, []).append(e)
+    return runs
+
+
+def conform(spec, cfg_text, runs, tp, name, workers=1):
+    """spec = dict(module, tok2rec, decode, tail, cmp, project).  Every run that was derived from a model behaviour
+    (tokens, default variant) is replayed through the model by TLC (module *Conform.tla): each token is
+    executed as the model action it names and the events the model emits must equal the recorded ones.
+    Returns dict(runs, ok, stuck=[(run, token index)], steps)."""
+    cmpk = spec.get("cmp", CONF_CMP)
+    proj = spec.get("project", lambda e: dict(e=e["e"], k=e["k"], s=e["s"], id=e["id"], q=e["q"], r=e["r"]))
+    cand = [r for r in runs if r.get("tokens") is not None and r.get("variant") in spec.get("variants", (None,))]
+    if not cand:
+        return dict(runs=0, ok=0, stuck=[], steps=0)
+    evs = events_by_cmd(tp)
+    d = os.path.join(WORK, "runs")
+    cp = os.path.join(d, f"{name}.conf.ndjson")
+    dec, tail = spec["decode"], spec.get("tail", 1)
+    n = steps = 0
+    by_run = {}
+    with open(cp, "w") as f:
+        for r in cand:
+            toks = r["tokens"]
+            bounds = [len(dec(toks[:i], r.get("variant"))[1]) - tail for i in range(len(toks) + 1)]
+            per = []
+            for i in range(len(toks)):
+                es = []
+                for c in range(bounds[i], bounds[i + 1]):
+                    es += [proj(e) for e in evs.get(r["run"], {}).get(c, []) if e["e"] in cmpk]
+                # wire output is observed at quiescence: its position among the other events is an artefact
+                per.append([e for e in es if e["e"] != "out"] + [e for e in es if e["e"] == "out"])
+            f.write(json.dumps(dict(run=r["run"], toks=[spec["tok2rec"](t) for t in toks], evs=per), separators=(",", ":")) + "\n")
+            by_run[r["run"]] = r
+            n += 1
+            steps += len(toks)
+    cfg = cfg_text.replace("SPECIFICATION ExportSpec", "SPECIFICATION ConformSpec")
+    cfg = "\n".join(l for l in cfg.splitlines() if not l.startswith(("INVARIANT", "VIEW"))) + "\n"
+    r = tlc(spec["module"], cfg, f"conf_{name}", workers=workers, timeout=1800, cache=False,
+            env=dict(CONF=cp), java_opts="-Xss1g -Xmx3g -Dtlc2.tool.queue.IStateQueue=StateDeque",
+            out_path=os.path.join(d, f"{name}.conf.txt"))
+    ok, stuck = set(), {}
+    for a in prints(r["out"], "CONF"):
+        if a[1] == "ok":
+            ok.add(a[0])
+        else:
+            stuck[a[0]] = max(stuck.get(a[0], 0), a[2])
+    stuck = {k: v for k, v in stuck.items() if k not in ok}
+    if len(ok) + len(stuck) != n:
+        raise ToolError(f"conformance run {name}: {n} runs in, {len(ok)} ok + {len(stuck)} stuck out")
+    res = dict(runs=n, ok=len(ok), steps=steps, stuck=[], wall=r["wall"])
+    for k, ti in list(stuck.items())[:6]:
+        rr = by_run[k]
+        res["stuck"].append(dict(tokens=rr["tokens"], at=ti, role=rr["cfg"].get("role"), ver=rr["cfg"].get("ver")))
+    res["nstuck"] = len(stuck)
+    return res
+
+
+# ---------------------------------------------------------------------------------------------
 # known findings
 
 def load_known():
